@@ -90,7 +90,7 @@ def solve_one(item):
     return {'index': idx, 'result': res, 'attempts': attempts, 'output': out if res != 'unsat' else ''}
 
 
-def discharge(vcs, timeout_s=30, jobs=None, want_model=True, progress=None, theory=None, fuel=1):
+def discharge(vcs, timeout_s=30, jobs=None, want_model=True, progress=None, theory=None, fuel=1, retry=True):
     """returns list of result dicts aligned with vcs (trivially true goals are not sent to a solver)"""
     jobs = jobs or min(16, os.cpu_count() or 4)
     results = [None] * len(vcs)
@@ -111,7 +111,7 @@ def discharge(vcs, timeout_s=30, jobs=None, want_model=True, progress=None, theo
                 progress(r)
     # second pass: anything still `unknown` is retried with three times the budget and little parallelism, so that a
     # verdict does not depend on how busy the machine was during the first pass
-    again = [it for it in items if results[it[0]]['result'] == 'unknown']
+    again = [it for it in items if results[it[0]]['result'] == 'unknown'] if retry else []
     if again:
         retry = [(i, text, timeout_s * 3, wm) for (i, text, _t, wm) in again]
         with ThreadPoolExecutor(max_workers=max(2, jobs // 4)) as ex:
